@@ -18,7 +18,7 @@ RULE = ("cases = (content, construction route [text, bytes+offset/length, iterab
         "cls(bin=content) under the same operation and mode. Non-trivial = route != plain text and the operation's result depends on the content; distinct = SHA-1.")
 ASSUMPTIONS = ["repr() of a file-backed object legitimately shows filename= and is not compared (C19 checks it)", "an empty file cannot be memory mapped (OS limitation): empty content is built from a non-empty file with length=0"]
 
-EXTRA_ROUTES = ['empty_plus_literal', 'literal_plus_empty', 'empty_plus_object', 'bitarray_little', 'bitarray_little_kw', 'frozenbitarray', 'memoryview', 'bytearray_offset', 'array_B', 'mul_then_slice', 'read_from_stream', 'cut_piece', 'unpack_bits',
+EXTRA_ROUTES = ['empty_plus_literal', 'literal_plus_empty', 'empty_plus_object', 'memoryview', 'bytearray_offset', 'array_B', 'mul_then_slice', 'read_from_stream', 'cut_piece', 'unpack_bits',
                 'from_uint', 'pathlib_name']
 ALL_ROUTES = MEM_ROUTES + files.FILE_ROUTES + EXTRA_ROUTES
 POSITIONAL_ROUTES = {'slice_of_longer', 'mul_then_slice', 'read_from_stream', 'cut_piece', 'unpack_bits'}
